@@ -9,10 +9,11 @@ Open Scope Z_scope.
 Section Families.
 Variable ffmt : Z -> Z -> bytes.
 Variable tz : Z -> Z.
+Variable efmt : Z -> bytes.
 Variable jsonp : bytes -> res bytes.
 
 Definition cell_family_ok (ty : coltype) : Prop :=
-  forall uns v, wf_type ty = true -> wf_value ty uns v = true -> cell_ok ffmt tz jsonp ty uns v.
+  forall uns v, wf_type ty = true -> wf_value ty uns v = true -> cell_ok ffmt tz efmt jsonp ty uns v.
 
 Definition not_decimal_or_json (ty : coltype) : bool :=
   match ty with TNewDecimal _ _ | TJson _ => false | _ => true end.
